@@ -15,6 +15,7 @@ LEVEL_NOTE = 'Trusted: the merge model; results compared as mappings, root type 
 RULE = ('random trees over a 5-letter key alphabet (forcing overlap), depth<=4, branching<=4, leaves None/int/str/list, dict/Dict/dictattr roots with mixed branch types, no empty '
         'branches; pairs (t,u) with overlapping branches, leaf-vs-branch conflicts and ignore lists; table<->tree with patterns of 1-4 wildcards (wildcard- and literal-terminated); '
         'non-trivial = (t,u) sharing >=1 branch at depth>=2, or a pattern with >=2 rows; distinct = canonical hash')
+RULE_ALSO = "; added by the coverage audit and round 8: items handed over as one-shot iterables, patterns written from the root ('/a/%b')"
 ASSUMPTIONS = ['keys containing dots are addressed through tuple / list paths only (a dotted string path is split by design)', 'empty branches are not generated (they vanish when flattened)', 'results are compared as mappings (a dict subclass equals a dict with the same items), root type checked separately',
                'with an ignore list, a leaf-vs-branch conflict is still resolved in u\'s favour (the branch is created before the ignored leaf is skipped), as the library does']
 KEYS = ['a', 'b', 'c', 'd', 'e']
